@@ -445,6 +445,9 @@ impl ImportResolver for SimResolver {
 		}
 	}
 	fn load_file_contents(&self, resolved: &SourcePath) -> JrResult<Vec<u8>> {
+		if let Some(f) = resolved.downcast_ref::<jrsonnet_ir::SourceFifo>() {
+			return Ok(f.1.to_vec());
+		}
 		let path = path_of(resolved);
 		let mut sh = self.shared.borrow_mut();
 		let out = sh.disk.load(&path);
